@@ -599,6 +599,38 @@ def wl_names(run, rng, idx):
                 sp = rw.to_surface(tokens, simple=False, parens=True, rng=rng)
                 attempt("element-explicit", tokens, "parenthesised", sp,
                         lambda: rep.element(sp, parse_simple=False))
+    # several words in ONE elements() call, consecutive words sharing leading
+    # generators and leading *characters* of generator names (seeded change
+    # C05-r2-2: a prefix-sharing optimisation counting shared characters)
+    if mode in ("star", "list", "upper-first") and len(letters) >= 2:
+        stem = rw.random_word(rng, letters, int(rng.integers(1, 4)))
+        batch = []
+        for _ in range(5):
+            tail = rw.random_word(rng, letters, int(rng.integers(1, 4)))
+            batch.append(tuple(stem) + tuple(tail))
+        batch.append(tuple(stem))
+        case = {"names": names, "mode": mode, "route": "elements-batch",
+                "words": [list(t) for t in batch], "kind": kind, "n": n,
+                "generators": {g: gens[g] for g in names}}
+        run.current_case = case
+        surf = [rw.to_surface(t, simple=False) for t in batch] if mode == "star" \
+            else [list(t) for t in batch]
+        try:
+            Ms = _numeric(rep.elements(surf))
+        except Exception as e:
+            mon.fail("names/exception:%s/elements-batch/%s" % (type(e).__name__, mode),
+                     "elements(%r) raised %s: %s" % (surf, type(e).__name__, str(e)[:100]),
+                     case, tb=traceback.format_exc())
+            Ms = None
+        if Ms is not None:
+            for j, t in enumerate(batch):
+                ref = rw.evaluate(t, tab)
+                sc = rw.scale(t, norms)
+                mon.judge(float(np.max(np.abs(Ms[j] - ref))) / max(sc, 1.0), 1e-8,
+                          "names/value/elements-batch/%s" % mode,
+                          "elements(words)[%d] is not the image of word %d of the batch %r"
+                          % (j, j, surf), dict(case, index=j))
+            run.note_class("names-batch", tuple(names), mode, kind)
     flush_history(run)
     if idx < 2:
         run.sample({"workload": "names", "names": names, "mode": mode,
@@ -980,6 +1012,56 @@ def wl_derived(run, rng, idx):
                       "sln_adjoint: trace of sigma(a) differs from tr rho(a) tr rho(a)^-1 - 1",
                       dict(case, derived="sln_adjoint"))
         run.note_class("derived", "adjoint-int-sweep", n)
+    # subgroup of an exact-integer representation through words with inverse
+    # letters, and of a representation whose generators have mixed dtype (seeded
+    # change C05-r2-3: subgroup images cast to the parent's dtype attribute)
+    if kind == "int":
+        from geometry_tools.representation import Representation
+        for t in range(30):
+            A, Ai = rw.rand_unimodular(rng, n)
+            B, Bi = rw.rand_unimodular(rng, n)
+            r1 = Representation()
+            r1["a"] = A.copy()
+            r1["b"] = B.copy()
+            case = {"derived": "subgroup", "kind": "int", "n": n, "generator a": A, "generator b": B}
+            run.current_case = case
+            try:
+                sub = tag(r1.subgroup(["A", "aB"]), "subgroup", "int")
+                Ga, Gb = _numeric(sub["a"]), _numeric(sub["b"])
+            except Exception as e:
+                mon.fail("derived/exception:%s/subgroup/int" % type(e).__name__,
+                         "subgroup(['A','aB']) of an integer representation raised %s: %s"
+                         % (type(e).__name__, str(e)[:100]), case, tb=traceback.format_exc())
+                break
+            sc = float(np.linalg.norm(A.astype(float), 2) * np.linalg.norm(Bi.astype(float), 2)
+                       * max(1.0, np.linalg.norm(Ai.astype(float), 2)))
+            err = max(float(np.max(np.abs(Ga - Ai))), float(np.max(np.abs(Gb - (A @ Bi)))))
+            mon.judge(err / sc, 1e-8, "derived/subgroup/int/inverse-letters",
+                      "subgroup(['A','aB']): images differ from rho(a)^-1, rho(a)rho(b)^-1", case)
+        run.note_class("derived", "subgroup-int-sweep", n)
+    if kind == "complex" and len(names) >= 2:
+        from geometry_tools.representation import Representation
+        r2_ = Representation()
+        first, lastg = names[0], names[-1]
+        Mc = np.asarray(tab[first]).astype(complex)
+        Mr = np.real(np.asarray(tab[lastg])) + 0.0
+        if abs(np.linalg.det(Mr)) > 1e-3 and np.max(np.abs(np.imag(Mc))) > 1e-3:
+            r2_[first] = Mc.copy()
+            r2_[lastg] = Mr.copy()          # the real generator is assigned last
+            case = {"derived": "subgroup", "kind": "complex-then-real", "n": n}
+            run.current_case = case
+            w = first + lastg
+            try:
+                got = _numeric(tag(r2_.subgroup([w]), "subgroup", "mixed")["a"])
+                ref = Mc @ Mr
+                mon.judge(float(np.max(np.abs(got - ref))) / max(1.0, float(np.linalg.norm(ref, 2))),
+                          1e-8, "derived/subgroup/mixed-dtype",
+                          "subgroup image of a complex-then-real representation differs from the "
+                          "product of the generators", case)
+            except Exception as e:
+                mon.fail("derived/exception:%s/subgroup/mixed-dtype" % type(e).__name__,
+                         "subgroup raised %s: %s" % (type(e).__name__, str(e)[:100]), case,
+                         tb=traceback.format_exc())
     # subgroup
     gw = [rw.random_word(rng, letters, int(rng.integers(1, 5))) for _ in range(2)]
     sub_names = ["a", "b"]
@@ -1246,6 +1328,11 @@ def wl_fox(run, rng, idx):
     if which == "free":
         k = 1 + int(rng.integers(0, 4))
         names = list("abcd"[:k])
+        if idx % 2:
+            # generators assigned in non-alphabetical order: the blocks of the
+            # differential follow the same order as those of the coboundary
+            # matrix, whatever it is (seeded change C05-r2-1)
+            names = [names[i] for i in rng.permutation(k)]
         rep, tab = make_rep(rng, n, names, kind)
         rels = []
     else:
